@@ -110,8 +110,10 @@ def run_shard(params, rec):
         rec.count("pool_mnemonics")
     for i in range(params["n"]):
         with_loop = rng.random() < 0.45
-        prog = jitlib.make_prog(spec, rng, pool, rng.randrange(3, 15), with_loop=with_loop,
+        mode = None if with_loop else rng.choice([None, None, None, "straddle", "straddle", "split"])
+        prog = jitlib.make_prog(spec, rng, pool, rng.randrange(3, 15), with_loop=with_loop, mode=mode,
                                 fault_bias=0.0 if with_loop else rng.choice([0.0, 0.03, 0.1, 0.3, 0.5]))
+        rec.count("mode:%s" % mode)
         bps = []
         if rng.random() < 0.5 and prog.instrs:
             bps = sorted(set(rng.choice(prog.instrs)[0] for _ in range(rng.choice([1, 2]))))
